@@ -577,6 +577,12 @@ func TestRapidEvents(t *testing.T) {
 		if cfg.NoSettings {
 			p.Set.TimeFormat = rapid.SampledFrom([]string{"RFC3339", "RFC3339", "UNIX", "UNIXMS", "UNIXMICRO", "UNIXNANO", "RFC3339Nano"}).Draw(rt, "tff")
 		}
+		// the clock behind Timestamp(): sometimes far from the present (the zero time, year 9999, beyond the
+		// range of int64 nanoseconds); the sub-second integer formats cannot express such instants
+		if tf := p.Set.TimeFormat; tf != "UNIXMS" && tf != "UNIXMICRO" && tf != "UNIXNANO" && rapid.IntRange(0, 3).Draw(rt, "farclock") == 0 {
+			p.Set.ClockSec = rapid.SampledFrom([]int64{-62135596800, 253402300799, 9223372037, -9223372037, 1 << 33, -(1 << 33), 0, -1}).Draw(rt, "clocksec")
+			p.Set.ClockNsec = rapid.SampledFrom([]int64{0, 999999999, 500000000}).Draw(rt, "clocknsec")
+		}
 		// most events should have the usual parts: add a timestamp, sometimes a caller
 		for i := range p.Events {
 			if p.Events[i].Method == "log" || p.Events[i].Method == "withlevel" {
